@@ -399,7 +399,7 @@ func init() {
 		return &runner.Spec{
 			Property: "C10", Engine: "kexplore", Level: "model_checking",
 			Jobs:   scenarioJobs("C10", C10Scenarios),
-			Rule:   "every interleaving of the firing cycle (schedule batch size 1, 2, 100; up to 4 cycles) with create / delete / re-create (same and different key) of the schedule and a user creating an occurrence's promise id, clock steps just before / onto / far past occurrences (jumps over 1..60 occurrences), one failure, one crash mid-cycle; the epilogue runs cycles until caught up and the final state is compared with the cron library's occurrence sequence; distinct = distinct (responses, final database) vectors",
+			Rule:   "every interleaving of the firing cycle (schedule batch size 1, 2, 100; up to 4 cycles) with create / delete / re-create (same and different key) of the schedule and a user creating an occurrence's promise id, clock steps just before / onto / far past occurrences (jumps over 1..60 occurrences), one failure, one crash mid-cycle; two racing creations of an absent schedule; a schedule the cycle has to skip (template that does not parse) in front of a healthy one whose promise id is taken; the epilogue runs cycles until caught up and the final state is compared with the cron library's occurrence sequence; distinct = distinct (responses, final database) vectors",
 			Assume: append([]string{"robfig/cron (via util.Next) is the definition of a cron occurrence"}, engineAAssume...), QuickS: 120, ThoroughS: 1200,
 		}
 	}
